@@ -44,6 +44,7 @@ class Binding:
         sig = case["sig"]
         params, attrs, ann, dflt = [], [], {}, {}
         ret = None
+        wrap = case.get("wrap", "plain")
         for sec in expect:
             kind = sec["kind"]
             els = sec.get("items", [])
@@ -73,7 +74,8 @@ class Binding:
                     for i in idx:
                         if sig[i]["ann"]:
                             ann[i] = f"R{i}"
-                    ret = self.return_annotation(kind, slot, idx[0])
+                    ret = self.return_annotation(kind, slot, wrap)
+                    ann["whole"] = ret
         # python needs defaults last
         params.sort(key=lambda s: "=" in s)
         src = ["from typing import Iterator, Generator", ""]
@@ -98,12 +100,16 @@ class Binding:
         return mod[path], ann, dflt, code
 
     @staticmethod
-    def return_annotation(kind: str, slot: str, i: int) -> str:
-        if kind == "returns":
+    def return_annotation(kind: str, slot: str, wrap: str) -> str:
+        """The return annotation of the documented object: `slot` is the part the section takes its types from."""
+        if wrap == "plain":
             return slot
-        if kind == "yields":
-            return f"Iterator[{slot}]" if i % 2 else f"Generator[{slot}, None, None]"
-        return f"Generator[None, {slot}, None]"
+        if wrap == "iter":
+            return f"Iterator[{slot}]"
+        parts = {"yields": 0, "receives": 1, "returns": 2}
+        elements = ["None", "None", "None"]
+        elements[parts[kind]] = slot
+        return "Generator[" + ", ".join(elements) + "]"
 
     # ---- exact projection of the real sections ---------------------------------------------------------------------------
     @staticmethod
@@ -217,6 +223,8 @@ class GoogleBinding(Binding):
                             it["annotation"] = p["type"]
                     elif el["ann"] == "sig":
                         it["annotation"] = ann[i]
+                    elif el["ann"] == "sigw":
+                        it["annotation"] = ann["whole"]
                     elif el["ann"] == "none":
                         it["annotation"] = None
                     if el["dflt"] == "sig":
